@@ -42,7 +42,8 @@ CHECKS = {
              '(a short batch is handed out only right after the end marker was taken, or at clock >= t_first + wait with every arrival '
              'stamped before t_first + wait already delivered; exactly at t_first + wait under zero processing time), C19_no_delay / '
              '_timeout_exact / _tick_only_when_blocked / _no_stall (no time passes between noticing and yielding; the timed get is '
-             'never overslept; the batcher is never stuck) hold for every interleaving of arrivals, time and batcher/consumer steps, '
+             'never overslept; the batcher is never stuck), C19_waits_no_longer_than_told, C19_never_spins and C19_closed_form (for '
+             'tie-free runs the batches and hand-over clocks are the greedy grouping of the take-stamped sequence) hold for every interleaving of arrivals, time and batcher/consumer steps, '
              'every batch_size >= 1, wait >= 0 and end marker (default None or custom with == semantics). The model is tied to the '
              'current /repo on every run: the real EagerBatcher is fed through a queue.Queue by a producer thread at generated dyadic '
              'virtual times (incl. deliberate ties, consumer holds, lazy time), its timed events (arrive/take/emit/resume/stop) are '
